@@ -122,8 +122,13 @@ def enter(sec, name, qual, quoted, addr):
         for k, s in enumerate(o.values):
             if s.title == qual:
                 return (s, a + '.%d' % k, o)
-            if s.title is not None and s.title.lower() == qual.lower() and s.title != qual:
-                return UNSPEC  # letter case of titles
+            if s.title is not None and s.title.lower() == qual.lower():
+                # letter case: the same title in a case-insensitive context (ASCII letters), another one otherwise
+                if not sec.nocase:
+                    continue
+                if any(c > 127 for c in s.title + qual):
+                    return UNSPEC
+                return (s, a + '.%d' % k, o)
         return NOTFOUND
     if quoted:
         return UNSPEC          # a quoted index
